@@ -1,0 +1,26 @@
+//go:build verif
+// +build verif
+
+package onet
+
+import (
+	"go.dedis.ch/kyber/v3"
+	"go.dedis.ch/onet/v3/network"
+)
+
+// Accessor for the correspondence harness of property C16 (service storage
+// returns what was saved, per service, across restarts). Compiled with the
+// build tag "verif" only; nothing here is called by the package itself.
+
+// VerifNewServerOnPath makes a server the way the test helpers of local.go do
+// (newServer with a non-empty dbPath: the database file lives in that
+// directory and is removed on Close), but for a given identity, so that a
+// server with the same key can be made again on the same directory. The
+// server gets a local router of its own and is not started.
+func VerifNewServerOnPath(s network.Suite, dbPath string, id *network.ServerIdentity, priv kyber.Scalar) (*Server, error) {
+	r, err := network.NewLocalRouterWithManager(network.NewLocalManager(), id, s)
+	if err != nil {
+		return nil, err
+	}
+	return newServer(s, dbPath, r, priv), nil
+}
